@@ -31,7 +31,7 @@ Record gcase := {
   g_decode : list (pystr * pystr * option pystr);      (* (content-type, payload) -> text *)
   g_backend : list (pystr * pystr * option pystr);     (* (login, pw) -> user / raises *)
   g_handler : hresp;
-  g_exists : list pystr; g_rights : list pystr
+  g_exists : list pystr; g_exists_w : list pystr; g_rights : list pystr
 }.
 
 Definition run_gate (c : gcase) : result :=
@@ -39,7 +39,7 @@ Definition run_gate (c : gcase) : result :=
        (fun ct p => match assoc2 (g_decode c) ct p with Some r => r | None => None end)
        (fun l p => match assoc2 (g_backend c) l p with Some r => r | None => Some [] end)
        (fun _ _ _ _ => g_handler c)
-       (fun u => mem_str u (g_exists c)) (fun u => mem_str u (g_rights c))
+       (fun u => mem_str u (g_exists c)) (fun u => mem_str u (g_exists_w c)) (fun u => mem_str u (g_rights c))
        (fun u => negb (is_safe_filesystem_path_component u))
        (g_cfg c) (g_env c).
 
@@ -50,6 +50,7 @@ Definition eq_effect (a b : effect) : bool :=
   match a, b with
   | EBackend l p, EBackend l' p' => eqs l l' && eqs p p'
   | EHome u c, EHome u' c' => eqs u u' && Bool.eqb c c'
+  | EHomeRecheck u c, EHomeRecheck u' c' => eqs u u' && Bool.eqb c c'
   | EDispatch m bp p u, EDispatch m' bp' p' u' => eqs m m' && eqs bp bp' && eqs p p' && eqs u u'
   | _, _ => false
   end.
